@@ -513,7 +513,13 @@ func genNewtonSpec(r *Rng) Spec {
 	case 1:
 		s.Mode = "LDL"
 	case 2:
-		s.Mode = "Eigenvalue"
+		// "Eigenvalue" only in one dimension: there getDirection panics deterministically (nil u, see
+		// solverPanic); from two dimensions on qrAlgorithm.Run may not terminate on the unchanged library
+		if n == 1 {
+			s.Mode = "Eigenvalue"
+		} else {
+			s.Mode = "LDL"
+		}
 	default:
 		s.Mode = "Foo"
 	}
